@@ -5,6 +5,7 @@ package harness
 import (
 	"fmt"
 	"math/rand/v2"
+	"strings"
 	"time"
 )
 
@@ -77,6 +78,12 @@ func genRecover(c *Config, r *rand.Rand) {
 		c.PipeProcs = []ProcCfg{{ID: "pl-p1", Workers: 1, ErrorPct: pick(r, 30, 100)}}
 	case "fatal-nonconverge":
 		c.PipeProcs = []ProcCfg{{ID: "pl-p1", Workers: 1, Stuck: true}}
+	}
+	if strings.HasPrefix(sc, "fatal-") && sc != "fatal-nonconverge" && r.IntN(2) == 0 {
+		// the fatal cause arrives while the server is shutting down or a user stop is draining
+		plan = append(plan, Action{Client: "user", Op: pick(r, "stopall", "stopall", "stop"), When: pick(r, "emitted", "written", "step"), N: r.IntN(total + 1)})
+	}
+	switch sc {
 	case "user-stop":
 		c.MaxFaults = pick(r, 0, 1, 2)
 		c.Faults["dst.write.err"] = 100
